@@ -5,8 +5,38 @@ import hashlib
 import json
 
 
+_BIG = 14000  # bits: beyond this the interpreter refuses int <-> decimal string conversion (4300 digits)
+
+
+def big_safe(obj):
+    """integers too long for the interpreter's decimal conversion limit become {"hexint": "0x..."} (the limit stays in
+    force in the harness processes, because it is part of the environment claripy is judged in)"""
+    if isinstance(obj, bool):
+        return obj
+    if isinstance(obj, int):
+        return {"hexint": hex(obj)} if obj.bit_length() > _BIG else obj
+    if isinstance(obj, (list, tuple)):
+        return [big_safe(x) for x in obj]
+    if isinstance(obj, dict):
+        return {k: big_safe(v) for k, v in obj.items()}
+    return obj
+
+
+def big_restore(obj):
+    if isinstance(obj, list):
+        return [big_restore(x) for x in obj]
+    if isinstance(obj, dict):
+        if set(obj) == {"hexint"}:
+            return int(obj["hexint"], 16)
+        return {k: big_restore(v) for k, v in obj.items()}
+    return obj
+
+
 def canon(obj) -> str:
-    return json.dumps(obj, sort_keys=True, default=repr, separators=(",", ":"))
+    try:
+        return json.dumps(obj, sort_keys=True, default=repr, separators=(",", ":"))
+    except ValueError:
+        return json.dumps(big_safe(obj), sort_keys=True, default=repr, separators=(",", ":"))
 
 
 def h64(obj) -> str:
@@ -91,10 +121,10 @@ class Result:
             "distinct": sorted(self.distinct),
             "counters": self.counters,
             "sets": {k: sorted(v, key=repr) for k, v in self.sets.items()},
-            "samples": self.samples,
-            "violations": self.violations,
+            "samples": big_safe(self.samples),
+            "violations": big_safe(self.violations),
             "nviol": self.nviol,
-            "known": self.known,
+            "known": big_safe(self.known),
             "inconclusive": self.inconclusive,
         }
 
